@@ -429,6 +429,16 @@ class KafkaCodec(object):
             else:
                 raise ProtocolError("Unsupported codec 0b{:b}".format(codec))
 
+        def absolute(inner):
+            # In message format 1 the messages inside a compressed wrapper
+            # carry offsets relative to the wrapper, whose own offset is the
+            # absolute offset of the last inner message (KIP-31).
+            inner = list(inner)
+            if inner:
+                base = offset - inner[-1].offset
+                for relative_offset, msg in inner:
+                    yield base + relative_offset, msg
+
         def v1(data, offset, cur):
             ((timestamp,), cur) = relative_unpack(">q", data, cur)
             (key, cur) = read_int_string(data, cur)
@@ -441,12 +451,12 @@ class KafkaCodec(object):
 
             elif codec == CODEC_GZIP:
                 gz = gzip_decode(value)
-                for offset, msg in KafkaCodec._decode_message_set_iter(gz):
+                for offset, msg in absolute(KafkaCodec._decode_message_set_iter(gz)):
                     yield offset, msg
 
             elif codec == CODEC_SNAPPY:
                 snp = snappy_decode(value)
-                for offset, msg in KafkaCodec._decode_message_set_iter(snp):
+                for offset, msg in absolute(KafkaCodec._decode_message_set_iter(snp)):
                     yield offset, msg
 
             else:
